@@ -2,6 +2,7 @@ import PharmpyModel.Core.Codec
 import PharmpyModel.C01.Spec
 import PharmpyModel.C01.Advan
 import PharmpyModel.C01.Omega
+import PharmpyModel.C01.Des
 open Pharmpy Pharmpy.C01
 
 /-
@@ -18,6 +19,7 @@ open Pharmpy Pharmpy.C01
     (wiring ADVANn)             → (codeObs specObs codeDose specDose)
     (omegaparse rec …)          → per record (ok (exact|sq fix same (inits…)) …) | (err kind)     model of OmegaRecord.parse
     (omegacov rec …)            → ((exact|sq n fix (lower triangle…)) …) | (err kind)            covariance blocks after SAME
+    (des ((mono coef (amt …)) …) …)   → ((flows (from to mono coef divisor) …) (rest ((mono coef) …) …) (safe|unsafe class …))   model of to_compartmental_system
       rec := (diag (v reps sd var fix) …) | (block n sd corr chol fix (v reps) …) | (same);  v := p/q
 
   prog  := (stmt …)
@@ -219,6 +221,27 @@ def omegaCov (recs : List Rec) : Sexp :=
   | .error e => oerr e
   | .ok bs => go none bs #[]
 
+/-! $DES -/
+
+def dterm? : Sexp → Option Des.Term
+  | .list [m, c, .list amts] => do
+    some ⟨← m.asNat?, ← rat? c, ← amts.mapM Sexp.asNat?⟩
+  | _ => none
+
+def dprog? : Sexp → Option Des.Prog
+  | .list eqs => eqs.mapM (fun e => match e with
+    | .list ts => ts.mapM dterm?
+    | _ => none)
+  | _ => none
+
+def desS (p : Des.Prog) : Sexp :=
+  let s := Des.translateDes p
+  .list [
+    .list (.atom "flows" :: s.flows.map (fun f =>
+      .list [Sexp.ofNat f.1, Sexp.ofNat f.2.1, Sexp.ofNat f.2.2.mono, ratAtom f.2.2.coef, Sexp.ofNat f.2.2.divisor])),
+    .list (.atom "rest" :: s.rest.map (fun e => .list (e.map (fun t => .list [Sexp.ofNat t.mono, ratAtom t.coef])))),
+    .list (.atom (if Des.DesSafe p then "safe" else "unsafe") :: (Des.desUnsafe p).map .atom)]
+
 def handle (req : Sexp) : Sexp :=
   match req with
   | .list [.atom "translate", p] =>
@@ -253,6 +276,10 @@ def handle (req : Sexp) : Sexp :=
   | .list (.atom "omegacov" :: recs) =>
     match recs.mapM orec? with
     | some rs => omegaCov rs
+    | none => bad
+  | .list [.atom "des", p] =>
+    match dprog? p with
+    | some p => desS p
     | none => bad
   | .list [.atom "entries"] =>
     .list (specEntries.map (fun p => .list [.atom p.1, .atom p.2]))
